@@ -97,9 +97,13 @@ def const_len_substring(sz):
 
 
 class StructMachine(Machine):
-    def __init__(self, prog, K=2):
+    def __init__(self, prog, K=2, K_paths=None):
         super().__init__(prog, 1)
         self.K = K
+        self.K_paths = K_paths or {}     # field name -> vector bound overriding K
+        self.order_vars = []             # iteration-order choices of HashSets (fresh per iteration)
+        self.order_constraints = []
+        self.set_iterations = 0
         self.counter = 0
         self.constraints = []
         self.leaves = []   # (path, kind, term) for model read-back
@@ -122,9 +126,10 @@ class StructMachine(Machine):
             return Opt(p, self.make(ty[7:-1], path))
         if ty.startswith("Vec<") and ty.endswith(">"):
             n = z3.Int(self.fresh_name(path + ".len"))
-            self.constraints += [n >= 0, n <= self.K]
+            K = self.K_paths.get(path.rsplit(".", 1)[-1], self.K)
+            self.constraints += [n >= 0, n <= K]
             self.leaves.append((path, "len", n))
-            return VecV(tuple((n > k, self.make(ty[4:-1], "%s[%d]" % (path, k))) for k in range(self.K)))
+            return VecV(tuple((n > k, self.make(ty[4:-1], "%s[%d]" % (path, k))) for k in range(K)))
         if ty.startswith("Box<") and ty.endswith(">"):
             return self.make(ty[4:-1], path)
         if ty in ("String", "&str", "&'staticstr"):
@@ -259,23 +264,72 @@ class StructMachine(Machine):
             return chain(0, fr, guard)
         return super().ev_if(e, fr, guard)
 
+    def iter_value(self, it):
+        return self.set_order(it) if isinstance(it, SetZ) else it
+
+    def set_order(self, sz):
+        """The sequence a HashSet is iterated in: its distinct members in an ARBITRARY order (std's RandomState is seeded per
+        set), i.e. a fresh symbolic permutation for every iteration."""
+        items = sz.items
+        n = len(items)
+        self.set_iterations += 1
+        pres = []
+        for k, (g, v) in enumerate(items):
+            dup = Or(*[And(g2, to_strz(v2) == to_strz(v)) for g2, v2 in items[:k]])
+            pres.append(And(g, Not(dup)))
+        canon = VecV(tuple((p, v) for p, (_, v) in zip(pres, items)))
+        if n <= 1:
+            return canon
+        keys = [z3.Int(self.fresh_name("hs_order")) for _ in range(n)]
+        cs = [z3.Distinct(*keys)] + [z3.And(k >= 0, k < n) for k in keys]
+        self.constraints += cs
+        self.order_constraints += cs
+        self.order_vars += keys
+        out = []
+        for j in range(n):
+            val, present = None, False
+            for i in range(n):
+                before = sum([If(And(pres[k], keys[k] < keys[i]), 1, 0) for k in range(n) if k != i])
+                here = And(pres[i], before == j)
+                val = items[i][1] if val is None else merge(here, items[i][1], val)
+                present = Or(present, here)
+            out.append((present, val))
+        return VecV(tuple(out), canonical=canon)
+
+    def slice_str(self, base, idx, fr, guard, oob_ok):
+        st = self.eval(idx["start"], fr, guard) if idx.get("start") is not None else 0
+        if isinstance(base, str) and isinstance(st, int) and all(ord(c) < 128 for c in base):
+            en = self.eval(idx["end"], fr, guard) if idx.get("end") is not None else len(base)
+            if isinstance(en, int):
+                if idx.get("closed"):
+                    en = en + 1
+                if 0 <= st <= en <= len(base):
+                    return base[st:en]
+                if oob_ok:
+                    return "\x00out-of-range\x00"
+                raise Unsupported("slice [%d..%d] out of range of a %d-byte string (the real code panics here)" % (st, en, len(base)))
+        s = to_strz(base)
+        mk = LineZ if isinstance(base, LineZ) or (isinstance(base, str) and "\n" not in base) else StrZ
+        if isinstance(base, TextV):
+            mk = StrZ
+        if idx.get("end") is not None:
+            en = self.eval(idx["end"], fr, guard)
+            if idx.get("closed"):
+                en = en + 1
+            return mk(z3.SubString(s, st, en - st))
+        return mk(z3.SubString(s, st, z3.Length(s) - st))
+
     def ev_index(self, e, fr, guard):
         base = self.eval(e["base"], fr, guard)
         idx = e["index"]
         if isinstance(base, ChronoStr):
             base = StrZ(base.z())
+        if isinstance(base, Alt) and idx["k"] == "range" and all(isinstance(v, (str, StrZ)) for _, v in base.alts):
+            # one slice per alternative; a slice that is out of range for an alternative belongs to a path on which that
+            # alternative is not the value (the guards exclude it), or to a panic of the real code (C07's subject)
+            return mk_alt([(g, self.slice_str(v, idx, fr, guard, True)) for g, v in base.alts])
         if isinstance(base, (StrZ, str)) and idx["k"] == "range":
-            st = self.eval(idx["start"], fr, guard) if idx.get("start") is not None else 0
-            s = to_strz(base)
-            mk = LineZ if isinstance(base, LineZ) or (isinstance(base, str) and "\n" not in base) else StrZ
-            if isinstance(base, TextV):
-                mk = StrZ
-            if idx.get("end") is not None:
-                en = self.eval(idx["end"], fr, guard)
-                if idx.get("closed"):
-                    en = en + 1
-                return mk(z3.SubString(s, st, en - st))
-            return mk(z3.SubString(s, st, z3.Length(s) - st))
+            return self.slice_str(base, idx, fr, guard, False)
         if isinstance(base, VecV):
             i = self.eval(idx, fr, guard)
             return self.vec_index(base, i)
@@ -615,6 +669,11 @@ class StructMachine(Machine):
                 self.assign(e["recv"], text_concat(recv, a0), fr, guard)
             return UNIT
         if isinstance(recv, str) and not any(isinstance(a, StrZ) for a in args):
+            if meth in ("as_bytes", "bytes") and all(ord(c) < 128 for c in recv):
+                return recv          # ASCII: bytes and characters coincide
+            if meth == "eq_ignore_ascii_case" and args and isinstance(args[0], str):
+                return recv.lower() == args[0].lower() if all(ord(c) < 128 for c in recv + args[0]) else \
+                    "".join(c.lower() if ord(c) < 128 else c for c in recv) == "".join(c.lower() if ord(c) < 128 else c for c in args[0])
             if meth in ("to_uppercase", "to_ascii_uppercase"):
                 return recv.upper()
             if meth in ("to_lowercase", "to_ascii_lowercase"):
@@ -679,6 +738,15 @@ class StructMachine(Machine):
             if meth in ("clone", "to_owned"):
                 return recv
         if isinstance(recv, VecV):
+            if meth in ("sort", "sort_unstable") and not args and recv.canonical is not None:
+                # sorting the members of a HashSet: the result depends on the members only, not on the iteration order.
+                # Modelled as a content-determined order (first-insertion order), which is all the determinism queries need;
+                # the actual lexicographic order of the text is not modelled
+                self.bounds_used.add("sort() of a HashSet's members: modelled as a content-determined order, not the lexicographic one")
+                self.assign(e["recv"], recv.canonical, fr, guard)
+                return UNIT
+            if meth in ("collect", "cloned", "copied") and recv.canonical is not None and not any("HashSet" in t for t in (e.get("turbofish") or [])):
+                return recv
             if meth == "contains" and args:
                 return Or(*[And(g, self.equals(v, args[0])) for g, v in recv.items])
             if meth in ("any", "all") and isinstance(args[0], Closure):
@@ -725,7 +793,23 @@ class StructMachine(Machine):
             if meth == "count":
                 return sum((If(g, 1, 0) if is_sym(g) else (1 if g else 0)) for g, _ in recv.items) if recv.items else 0
             if meth == "enumerate":
-                return VecV(tuple((g, TupleV((k, v))) for k, (g, v) in enumerate(recv.items)))
+                if all(g is True for g, _ in recv.items) or len(recv.items) <= 1:
+                    return VecV(tuple((g, TupleV((k, v))) for k, (g, v) in enumerate(recv.items)))
+                rank, out = 0, []
+                for g, v in recv.items:
+                    out.append((g, TupleV((rank, v))))
+                    rank = rank + (If(g, 1, 0) if is_sym(g) else (1 if g else 0))
+                return VecV(tuple(out))
+            if meth == "flatten":
+                out = []
+                for g, inner in recv.items:
+                    if isinstance(inner, Opt):
+                        out.append((And(g, inner.present), inner.val))
+                    elif isinstance(inner, VecV):
+                        out += [(And(g, g2), v) for g2, v in inner.items]
+                    else:
+                        raise Unsupported("flatten over %s" % type(inner).__name__)
+                return VecV(tuple((g, v) for g, v in out if is_sym(g) or g))
             if meth == "extend":
                 other = args[0]
                 if not isinstance(other, VecV):
@@ -754,12 +838,10 @@ class StructMachine(Machine):
         if isinstance(recv, SetV) or isinstance(recv, SetZ):
             pass
         if isinstance(recv, SetZ):
-            if meth in ("iter", "into_iter", "collect", "cloned", "drain"):
-                out = []
-                for k, (g, v) in enumerate(recv.items):
-                    dup = Or(*[And(g2, to_strz(v2) == to_strz(v)) for g2, v2 in recv.items[:k]])
-                    out.append((And(g, Not(dup)), v))
-                return VecV(tuple(out))
+            if meth in ("iter", "into_iter", "drain"):
+                return self.set_order(recv)
+            if meth in ("collect", "cloned"):
+                return recv
             if meth == "contains":
                 return Or(*[And(g, to_strz(v) == to_strz(args[0])) for g, v in recv.items])
             if meth == "insert":
@@ -836,6 +918,11 @@ class StructMachine(Machine):
             return SetZ(())
         if f["k"] == "path":
             p = f["path"]
+            if p.endswith("::default") and not e["args"] and len(p.split("::")) >= 2:
+                ty = p.split("::")[-2]
+                ty = fr.self_ty if ty == "Self" else ty
+                if ty in self.prog.structs and not self.prog.fns.get((ty, "default", True)) and not self.prog.fns.get((ty, "default", False)):
+                    return self.default_of(ty)       # #[derive(Default)]
             if p.endswith("NaiveDate::from_ymd_opt"):
                 y, m, d = [self.eval(a, fr, guard) for a in e["args"]]
                 y, m, d = [x if is_sym(x) else z3.IntVal(x) for x in (y, m, d)]
@@ -917,6 +1004,34 @@ def error_codes(val):
     elif isinstance(val, Opt):
         if val.val is not None:
             code_of(val.val, val.present)
+    else:
+        raise Unsupported("not an error list: %r" % (val,))
+    return out
+
+
+def error_sites(val):
+    """[(guard, {field name: python str | z3 string term})] for every error construction site of a Vec / Option of
+    SwiftValidationError: the code and every other string field of the error that the interpreter could evaluate"""
+    out = []
+
+    def one(err, g):
+        for ga, v in alt_of(err):
+            if isinstance(v, EnumV) and v.payload and isinstance(v.payload, list) and isinstance(v.payload[0], StructV):
+                fields = {}
+                for name, fv in v.payload[0].fields.items():
+                    if isinstance(fv, str):
+                        fields[name] = fv
+                    elif isinstance(fv, (StrZ, ChronoStr)):
+                        fields[name] = to_strz(fv)
+                out.append((And(g, ga), fields))
+            else:
+                raise Unsupported("validation error value %r" % (v,))
+    if isinstance(val, VecV):
+        for g, v in val.items:
+            one(v, g)
+    elif isinstance(val, Opt):
+        if val.val is not None:
+            one(val.val, val.present)
     else:
         raise Unsupported("not an error list: %r" % (val,))
     return out
